@@ -42,12 +42,12 @@ case "${1:-}" in
   export -f one rate_of; export RATE ROUNDS MODE
   for ((s=0; s<n; s++)); do for ((k=0; k<nseeds; k++)); do echo "$s $(( (base % 100000) * 64 + s * 131 + k ))"; done; done > "$tmp/pairs"
   # 16 interpreters at a time
-  xargs -P 16 -L 1 bash -c 'out="$(one "$0" "$1")"; rc=$?; echo "$out" | grep -E "^MICRO-" | sed "s/^/seed=$1 rate=$(rate_of "$0" "$1") /" ; if [ $rc -ne 0 ] && ! echo "$out" | grep -q "^MICRO-VIOLATION"; then echo "seed=$1 MICRO-HARNESS subject=$0 rc=$rc $(echo "$out" | tail -3 | tr "\n" " ")"; fi' < "$tmp/pairs" > "$tmp/out" 2>&1
+  xargs -P 16 -L 1 bash -c 'out="$(one "$0" "$1")"; rc=$?; echo "$out" | grep -E "^MICRO-" | sed "s/^/seed=$1 rate=$(rate_of "$0" "$1") /" ; if [ $rc -ne 0 ] && ! echo "$out" | grep -q "^MICRO-VIOLATION"; then if echo "$out" | grep -q "unsupported operation"; then echo "seed=$1 MICRO-UNSUPPORTED subject=$0 $(echo "$out" | grep -m1 "unsupported operation" | cut -c1-160)"; else echo "seed=$1 MICRO-ABORT subject=$0 rc=$rc $(echo "$out" | grep -m1 -E "^error" | cut -c1-200)"; fi; fi' < "$tmp/pairs" > "$tmp/out" 2>&1
   t1=$(date +%s.%N)
   python3 - "$tmp/out" "$outj" "$n" "$nseeds" "$RATE" "$ROUNDS" "$HERE" "$(echo "$t1 - $t0" | bc)" "$PROP" "$MODE" <<'PY'
 import sys, json, re, os
 out, outj, n, nseeds, rate, rounds, here, wall, prop, mode = sys.argv[1:11]
-ok = skip = 0; viol = []; harness = []; samples = []; bad_runs = set()
+ok = skip = 0; viol = []; harness = []; samples = []; bad_runs = set(); unsupported = []; aborted = []
 for l in open(out):
     m = re.match(r"seed=(\d+) (?:rate=(\S+) )?(MICRO-\w+) subject=(\d+)(.*)", l.strip())
     if not m: continue
@@ -57,7 +57,8 @@ for l in open(out):
         if len(samples) < 3: samples.append({"subject": subj, "miri_seed": seed, "result": rest})
     elif kind == "MICRO-SKIP": skip += 1
     elif kind == "MICRO-VIOLATION": viol.append((subj, seed, rest, run_rate)); bad_runs.add((subj, seed))
-    elif kind == "MICRO-HARNESS": harness.append(l.strip())
+    elif kind == "MICRO-UNSUPPORTED": unsupported.append(l.strip())
+    elif kind == "MICRO-ABORT": aborted.append(l.strip())
 reported = {}
 for subj, seed, rest, run_rate in sorted(viol):
     mt = re.search(r"mt=([\w+]+)", rest); inv = re.search(r"\b([ITO][0-9])\b", rest)
@@ -69,12 +70,18 @@ for subj, seed, rest, run_rate in sorted(viol):
     json.dump({"format": "mtmiri-replay-1", "property": prop, "mode": mode, "engine": "micro-schedule", "subject": subj, "seed": seed,
                "preemption_rate": run_rate, "rounds": int(rounds), "expect_class": cls, "expect_detail": rest}, open(path, "w"), indent=1)
     reported[cls] = {"class": cls, "detail": rest, "replay": path, "runs": 1}
-json.dump({"subjects": int(n), "seeds_per_subject": int(nseeds), "interleavings_executed": ok + len(bad_runs), "violating_interleavings": len(bad_runs), "ok": ok, "skipped_subjects_not_parsing": skip,
+total_runs = int(n) * int(nseeds)
+# a run the interpreter could not finish gives no verdict (the code under test performed an operation Miri does not
+# support in isolation, e.g. read the wall clock, or Miri itself aborted); that is reported, not fatal — unless no
+# run at all got as far as that, which means the stage itself is broken (toolchain, build)
+if ok + len(bad_runs) + skip + len(unsupported) == 0:
+    harness.append(f"no micro-schedule run produced a verdict ({len(unsupported)} unsupported, {len(aborted)} aborted): " + " | ".join((unsupported + aborted)[:2]))
+json.dump({"subjects": int(n), "seeds_per_subject": int(nseeds), "interleavings_executed": ok + len(bad_runs), "violating_interleavings": len(bad_runs), "ok": ok, "skipped_subjects_not_parsing": skip, "runs_without_verdict_unsupported_operation": len(unsupported), "runs_without_verdict_interpreter_abort": len(aborted), "no_verdict_samples": (unsupported + aborted)[:3],
            "preemption_rates": (rate or "0.001 / 0.01 / 0.05 by run"), "rounds_per_caller": int(rounds), "callers": 3, "property": prop, "wall_s": float(wall), "violations": list(reported.values()),
            "harness_errors": harness[:5], "samples": samples,
            "components": {"real": ["swift-mt-message (parser, validators, field-map tokeniser, finders, sequence splitting), interpreted by Miri"], "stub": ["thread scheduler: Miri's seeded preemptive scheduler", "entropy and clock: Miri's deterministic shims"]}},
           open(outj, "w"), indent=1)
-print(f"micro-schedule: {ok + len(bad_runs)} interleavings over {n} subjects x {nseeds} seeds, {len(bad_runs)} violating, {skip} skipped, {len(harness)} harness errors, {float(wall):.1f}s")
+print(f"micro-schedule: {ok + len(bad_runs)} interleavings over {n} subjects x {nseeds} seeds, {len(bad_runs)} violating, {skip} skipped, {len(unsupported) + len(aborted)} without verdict, {len(harness)} harness errors, {float(wall):.1f}s")
 PY
   rm -rf "$tmp";;
  *) echo "usage: $0 run <C13|C16> <tier> <out.json> | replay <file>"; exit 2;;
